@@ -99,6 +99,7 @@ type World struct {
 	SQL *sql.DB            // independent connection for reading the tables
 	own bool               // Dir was created by NewWorld
 	Reopened bool          // Reopen() was used: only the sessions active at that time are in memory
+	cfg *conf              // optional configuration (config.go); nil = the fixture as it always was
 }
 
 // NewWorld creates a scratch dir with a fresh database.  With existed=true the file
@@ -146,6 +147,7 @@ func OpenWorld(dir string) (*World, error) {
 }
 
 func (w *World) Close() {
+	w.closeConf()
 	if w.SQL != nil {
 		w.SQL.Close()
 	}
@@ -259,10 +261,12 @@ func Outstanding(a *agent.Agent, req, cmd uint32) {
 
 // Mark dispatches the operator's Session/MarkAsDead package (cmd/server/dispatch.go:27-42;
 // the client sends {"AgentID": <name id>, "Marked": "Dead"|"Alive"}).
-func (w *World) Mark(nameID, marked string) {
+func (w *World) Mark(nameID, marked string) { w.markAs("op", nameID, marked) }
+
+func (w *World) markAs(user, nameID, marked string) {
 	var pk packager.Package
 	pk.Head.Event = packager.Type.Session.Type
-	pk.Head.User = "op"
+	pk.Head.User = user
 	pk.Head.Time = "01/01/2026 00:00:00"
 	pk.Body.SubEvent = packager.Type.Session.MarkAsDead
 	pk.Body.Info = map[string]interface{}{"AgentID": nameID, "Marked": marked}
@@ -404,6 +408,7 @@ func SchemaDiff() []string {
 // AgentAdd for each, then ParentOf / LinksOf; transcribed, Start() itself needs sockets).
 // From here on db.Existed() is true whatever created the file.
 func (w *World) Reopen() error {
+	w.closeTaps() // the operators of the abandoned teamserver (optional configuration)
 	if w.SQL != nil {
 		w.SQL.Close()
 	}
@@ -414,6 +419,9 @@ func (w *World) Reopen() error {
 	}
 	w.TS, w.Ext, w.SQL = nw.TS, nw.Ext, nw.SQL
 	w.Reopened = true
+	if err := w.applyConf(); err != nil { // Start() sets up WebHooks / Service before the sessions are restored
+		return err
+	}
 	ts := w.TS
 	agents := ts.DB.AgentAll()
 	for _, a := range agents {
